@@ -1,0 +1,32 @@
+package window
+
+import "strings"
+
+// Group-key encoding shared by the counting, session and global windows.
+//
+// A row's key is the text of its GROUP BY values joined with groupKeyPartSep.
+// So that distinct value tuples never share a key, every part is escaped before
+// joining: the separator and the escape byte get a backslash in front, and a
+// NULL or missing value is written as groupKeyNullPart, a sequence escaping can
+// never produce (so NULL differs from the empty string and from the text "\N").
+// Values without '|' and '\' are encoded as themselves.
+const (
+	groupKeyPartSep  = "|"
+	groupKeyNullPart = `\N`
+)
+
+// escapeKeyPart escapes the separator and the escape byte of one rendered key part.
+func escapeKeyPart(s string) string {
+	if !strings.ContainsAny(s, `\|`) {
+		return s
+	}
+	var b strings.Builder
+	b.Grow(len(s) + 2)
+	for i := 0; i < len(s); i++ {
+		if s[i] == '\\' || s[i] == '|' {
+			b.WriteByte('\\')
+		}
+		b.WriteByte(s[i])
+	}
+	return b.String()
+}
